@@ -128,10 +128,31 @@ func (f *FileBackend) writeLoop() {
 
 	var buf bytes.Buffer
 
+	flush := func() {
+		if _, err := io.Copy(dest, &buf); err != nil {
+			log.Errorf("Failed to copy data to File : %+q", err)
+		}
+
+		if err := dest.Sync(); err != nil {
+			log.Errorf("Failed to sync Write to File : %+q", err)
+		}
+
+		// Reset the buffer for reuse.
+		buf.Reset()
+	}
+
+	// what has been collected is written once a second, whether or not events
+	// keep coming: a timer started anew for every event never fired under a
+	// steady trickle of them
+	tick := time.NewTicker(time.Second)
+	defer tick.Stop()
+
 	for {
 		select {
 		case req, ok := <-f.request:
 			if !ok {
+				// closed: what was accepted before is written
+				flush()
 				return
 			}
 
@@ -143,18 +164,9 @@ func (f *FileBackend) writeLoop() {
 			if buf.Len() < (500 * 1024) {
 				continue
 			}
-		case <-time.After(time.Second):
+		case <-tick.C:
 		}
 
-		if _, err := io.Copy(dest, &buf); err != nil {
-			log.Errorf("Failed to copy data to File : %+q", err)
-		}
-
-		if err := dest.Sync(); err != nil {
-			log.Errorf("Failed to sync Write to File : %+q", err)
-		}
-
-		// Reset the buffer for reuse.
-		buf.Reset()
+		flush()
 	}
 }
